@@ -114,7 +114,11 @@ JudgeCall(c, dev0, b, focus) ==
       R(v, bb) == [v |-> v, board |-> bb] IN
   \* the port's close() complained while this call gave the port up (the device was already gone): C05 says nothing about what reboot /
   \* bootload / disconnect report then; C04 still demands that the object ends up not connected
-  IF F("C05") /\ c.close_raised /\ cl.m \in {"reboot", "bootload", "disconnect"} THEN R("ok", b)
+  \* (a request method that RAISES is judged all the same; disconnect is no request method under C05)
+  IF F("C05") /\ c.close_raised /\ cl.m \in {"reboot", "bootload", "disconnect"}
+     THEN R(IF c.raised /\ cl.m # "disconnect" THEN "fault.public_method_raises" ELSE "ok", b)
+  \* C04: "disconnecting remains possible" - a disconnect() that raises has not disconnected
+  ELSE IF c.raised /\ F("C04") /\ cl.m = "disconnect" THEN R("latch.disconnect_closes_without_io", b)
   ELSE IF c.raised /\ F("C15") /\ cl.m = "connect" THEN
        R(IF Unsupported(dev) THEN "connect.unsupported_device_returns_false_with_error" ELSE "skip", b)
   ELSE IF c.raised /\ F("C05") /\ cl.m # "connect" THEN R("fault.public_method_raises", b)
